@@ -21,7 +21,8 @@ MANIFEST = {
                   "frames, so the receiver delivers every payload of every thread exactly once, byte for byte, and each thread's payloads "
                   "in that thread's order; (stream_rekeyed) the session key may be replaced on the live session any number of times: if "
                   "both ends switch at the same frame boundary every payload is still delivered once, in order, byte for byte (the code "
-                  "copies the key after a frame has been read — regenerated flag); (concurrent_unlocked_counterexample) without the lock two 2-piece sends interleave into a "
+                  "copies the key after a frame has been read — regenerated flag); an established session carries no receive timeout "
+                  "(regenerated flag + getsockopt observation on every open, clause idle-timeout); (concurrent_unlocked_counterexample) without the lock two 2-piece sends interleave into a "
                   "stream whose length field announces 16 MiB: session ended, nothing delivered (kernel-evaluated). The reader is modelled "
                   "both as a resumable machine fed arbitrary pieces and as receive_loop over the whole received string; the two are proved "
                   "equal on every byte string and both meet an independent specification (Spec/Frames.lean). Tied to the code by "
@@ -597,7 +598,9 @@ def spec() -> Spec:
              "each to one peer at the same time (8 B..20 KB cheap; 64-128 KiB with a 4 KiB SO_SNDBUF, where unserialised writers "
              "interleave; thorough: 256 KiB-1 MiB from up to 4 threads with default buffers), judged by multiset equality and "
              "per-thread order; key replacement on the live session (register_peer_key at both ends) while the readers are idle or "
-             "right after a send / a burst, 1-4 times per case, followed by sends in both directions. distinct = sha256 of the op list; "
+             "right after a send / a burst, 1-4 times per case, followed by sends in both directions; every open/rawopen reports the "
+             "SO_RCVTIMEO of the established sessions' sockets (must be 0); thorough: two cases with 2.3 s of real idle time between "
+             "sends. distinct = sha256 of the op list; "
              "non-trivial = at least one payload delivered and compared, or a send refused, or a session ended, or a frame captured",
         trusted_base=["kernel TCP (loopback), std::thread scheduling, std::random_device (nonces taken from the implementation as hints)",
                       "marker-frame quiescence: a drain sends one more frame through the code under test and waits (bounded 30 s) for it",
